@@ -64,12 +64,22 @@ type Step struct {
 	NH    int
 	Dump  []specfs.Entry
 	Obs2  *nfsx.Obs
+	Crash [][]specfs.Entry // durable dumps after each backend call (only when Session.TrackCrash)
 }
 
 func (s *Step) Coq() string {
 	obs2 := "None"
 	if s.Obs2 != nil {
 		obs2 = "(Some " + s.Obs2.Coq() + ")"
+	}
+	cr := make([]string, len(s.Crash))
+	for i, d := range s.Crash {
+		cr[i] = nfsx.CoqDump(d)
+	}
+	crash := CList(cr)
+	verf := "None"
+	if s.Obs.Verf != nil {
+		verf = fmt.Sprintf("(Some %d)", *s.Obs.Verf)
 	}
 	var raw []string
 	for _, c := range s.Calls {
@@ -78,8 +88,8 @@ func (s *Step) Coq() string {
 			raw = append(raw, CBytes([]byte(c.Path2)))
 		}
 	}
-	return fmt.Sprintf("{| i_step := {| hs_adv := %d; hs_cred := %s; hs_req := %s |}; i_rpc := %d; i_obs := %s; i_calls := %s; i_raw := %s; i_nh := %d; i_reslen := %d; i_dump := %s; i_obs2 := %s |}",
-		s.AdvNs, nfsx.CoqCred(s.Cred), s.Req.Coq(), s.Obs.RPC, s.Obs.Coq(), nfsx.CoqCalls(s.Calls), CList(raw), s.NH, len(s.Obs.Raw), nfsx.CoqDump(s.Dump), obs2)
+	return fmt.Sprintf("{| i_step := {| hs_adv := %d; hs_cred := %s; hs_req := %s |}; i_rpc := %d; i_obs := %s; i_calls := %s; i_raw := %s; i_nh := %d; i_reslen := %d; i_dump := %s; i_obs2 := %s; i_crash := %s; i_verf := %s |}",
+		s.AdvNs, nfsx.CoqCred(s.Cred), s.Req.Coq(), s.Obs.RPC, s.Obs.Coq(), nfsx.CoqCalls(s.Calls), CList(raw), s.NH, len(s.Obs.Raw), nfsx.CoqDump(s.Dump), obs2, crash, verf)
 }
 func (s *Step) Text() string {
 	adv := ""
@@ -96,6 +106,7 @@ type Session struct {
 	Init  []specfs.Entry
 	Twin  *nfsx.Env // optional second server with minimal caches, fed the same requests
 	twinLag int64
+	TrackCrash bool // record the durable tree after every backend call
 	Steps []*Step
 	// what the generator knows
 	Handles []uint64
@@ -125,8 +136,13 @@ func (s *Session) Do(advNs int64, c nfsx.Cred, r *nfsx.Req) *Step {
 	advNs += s.twinLag // already applied to the clock when the twin ran
 	s.twinLag = 0
 	s.Env.FS.TakeLog()
+	var crash [][]specfs.Entry
+	if s.TrackCrash {
+		s.Env.FS.AfterOp = func(specfs.Call) { crash = append(crash, s.Env.FS.DumpLocked(true)) }
+	}
 	o := s.Env.Do(c, r)
-	st := &Step{AdvNs: advNs, Cred: c, Req: r, Obs: o, Calls: s.Env.FS.TakeLog(), NH: s.Env.NFS.VerifFileMap().Count(), Dump: s.Env.FS.Dump(false)}
+	s.Env.FS.AfterOp = nil
+	st := &Step{Crash: crash, AdvNs: advNs, Cred: c, Req: r, Obs: o, Calls: s.Env.FS.TakeLog(), NH: s.Env.NFS.VerifFileMap().Count(), Dump: s.Env.FS.Dump(false)}
 	if s.Twin != nil {
 		absnfs.VerifAdvanceClock(2)
 		s.twinLag = 2
